@@ -22,8 +22,9 @@ import sys
 REPO = os.environ.get("FV_REPO", "/repo")
 ROOT = os.path.dirname(os.path.dirname(os.path.abspath(__file__)))
 GEN_DIR = os.path.join(REPO, "read-fonts", "generated")
-OUT_V = os.path.join(ROOT, "coq", "C01", "LayoutGen.v")
-OUT_JSON = os.path.join(ROOT, "coq", "C01", "LayoutGen.stats.json")
+OUT_DIR = os.environ.get("FV_LAYOUT_OUT", os.path.join(ROOT, "coq", "C01"))   # override only for offline experiments
+OUT_V = os.path.join(OUT_DIR, "LayoutGen.v")
+OUT_JSON = os.path.join(OUT_DIR, "LayoutGen.stats.json")
 
 ERRORS = []
 
@@ -673,6 +674,21 @@ RESOLVER_SHAPES = [
 ]
 
 
+def check_retype(cx, idx, c):
+    """`into_concrete` / `of_unit_type`: rebuild the TableRef around the SAME data with a marker whose every
+    field is copied from the old marker (only the phantom offset type changes)."""
+    m = re.fullmatch(r"let TableRef\{data,(?:shape|\.\.)\}=self;TableRef\{shape:(\w+Marker)\{(.*)\},data(?::\*data)?,\}", c)
+    if not m:
+        cx.fail(idx, "unknown TableRef re-typing function", c)
+    for f in split_top(m.group(2)):
+        if f == "" or f == "offset_type:std::marker::PhantomData":
+            continue
+        mf = re.fullmatch(r"(\w+):shape\.(\w+)", f)
+        if not mf or mf.group(1) != mf.group(2):
+            cx.fail(idx, "re-typing function does not copy the marker field verbatim", f)
+    cx.count("other_fns", "marker_retype(into_concrete/of_unit_type: fields copied verbatim)")
+
+
 def ret_type(sig):
     m = re.fullmatch(r"fn \w+\(&self\)->(.*)", sig)
     return m.group(1) if m else None
@@ -852,10 +868,7 @@ def process_file(path, stats, layouts):
                 cx.count("other_fns", "read_args_constructor")
                 continue
             if fname == "into_concrete" or fname == "of_unit_type":
-                # ExtensionPos/Lookup<T> re-typing helpers: rebuild TableRef from existing shape (no read)
-                if re.search(r"unwrap|expect|\[", canon(fb)):
-                    cx.fail(fi, "unexpected unwrap in %s" % fname, canon(fb))
-                cx.count("other_fns", fname)
+                check_retype(cx, fbi, canon(fb))
                 continue
             kind, val = translate_getter(cx, fname, sig, fb, fbi, fields, pend)
             if kind == "getter":
@@ -925,6 +938,13 @@ def classify_other(cx, h, body, hs, bs, typedefs):
             cx.count("not_translated", "lookup_type_dispatch_enum (Lookup::read(bytes)? then match; no unwrap)")
             return
         cx.fail(bs, "unknown FontRead impl", h + " " + c[:200])
+    if "TableRef{" in c:
+        # impl<'a> X<'a, ()> { fn into_concrete<T>(self) -> X<'a, T> { .. } }
+        for fname, sig, fb, fi, fbi in fns_of(body, bs):
+            if fname not in ("into_concrete", "of_unit_type"):
+                cx.fail(fi, "TableRef constructed in unexpected function", sig)
+            check_retype(cx, fbi, canon(fb))
+        return
     if "data.cursor()" in c or "cursor.finish" in c:
         cx.fail(bs, "cursor walk in unexpected item", h)
     if re.search(r"self\.shape\.", c):
